@@ -364,8 +364,46 @@ def p_parse_serialize(c):
     return got == raw, xb(got), xb(raw)
 
 
+def ref_push(d):
+    """minimal push encoding written here (BIP62 rule 3 for the length forms), independent of Script.raw_serialize"""
+    n = len(d)
+    if n <= 75:
+        return bytes([n]) + d
+    if n <= 255:
+        return b"\x4c" + bytes([n]) + d
+    return b"\x4d" + n.to_bytes(2, "little") + d
+
+
+def ref_cs(n):
+    return bytes([n]) if n < 0xFD else (b"\xfd" + n.to_bytes(2, "little") if n < 0x10000 else b"\xfe" + n.to_bytes(4, "little"))
+
+
+def ref_legacy_tx(sig_pushes, pk_pushes, seq=0xFFFFFFFE, locktime=7):
+    """hand-encoded one-input one-output legacy transaction: scriptSig = the given pushes, scriptPubKey = the given
+    pushes followed by OP_DROPs and OP_1"""
+    ssig = b"".join(ref_push(d) for d in sig_pushes)
+    spk = b"".join(ref_push(d) for d in pk_pushes) + b"\x75" * len(pk_pushes) + b"\x51"
+    return ((2).to_bytes(4, "little") + b"\x01" + bytes(range(32)) + (1).to_bytes(4, "little") + ref_cs(len(ssig)) + ssig
+            + seq.to_bytes(4, "little") + b"\x01" + (123456).to_bytes(8, "little") + ref_cs(len(spk)) + spk + locktime.to_bytes(4, "little"))
+
+
+def p_canon_bytes(c):
+    """bytes encoded HERE (not by the library) with minimal pushes: parsing and re-serialising reproduces them, the
+    script bodies re-serialise to themselves, and the id is the reversed double-SHA256 (hashlib) of the bytes"""
+    import buidl.tx as TX
+    import buidl.script as S
+    raw = unx(c["b"])
+    t = TX.Tx.parse(io.BytesIO(raw))
+    want_id = hashlib.sha256(hashlib.sha256(raw).digest()).digest()[::-1].hex()
+    body = unx(c["script"])
+    got = [xb(t.serialize()), t.id(), xb(S.Script.parse(raw=body).raw_serialize()),
+           xb(S.Script(list(S.Script.parse(raw=body).commands)).raw_serialize())]
+    want = [xb(raw), want_id, xb(body), xb(body)]
+    return got == want, got, want
+
+
 PREDICATES = {"tx_roundtrip": p_tx_roundtrip, "script_roundtrip": p_script_roundtrip, "witness_roundtrip": p_witness_roundtrip,
-              "txid": p_txid, "fetch_sound": p_fetch, "parse_serialize": p_parse_serialize, "fetch_history": p_fetch_history, "parse_sound": p_parse_sound}
+              "txid": p_txid, "fetch_sound": p_fetch, "parse_serialize": p_parse_serialize, "fetch_history": p_fetch_history, "parse_sound": p_parse_sound, "canon_bytes": p_canon_bytes}
 
 
 def eval_pred(kind, case):
@@ -576,6 +614,14 @@ def run(ctx):
             bad = bytearray(raw)
             bad[rng.randrange(len(bad))] ^= rng.randrange(1, 256)
             streams.append(("garbled", bytes(bad)))
+    # canonical bytes encoded by the harness itself (the oracle must not go through Script.raw_serialize): every push
+    # length 1..80 and the PUSHDATA1/2 boundaries, in scriptSig and in scriptPubKey
+    for L in list(range(1, 81)) + [254, 255, 256, 257, 519, 520]:
+        d = rbytes(rng, L)
+        for sigp, pkp in (([d], []), ([], [d]), ([rbytes(rng, 71), d], [d])):
+            raw = ref_legacy_tx(sigp, pkp)
+            body = b"".join(ref_push(x) for x in (sigp or pkp))
+            preds.append(("canon_bytes", {"b": xb(raw), "script": xb(body), "why": f"push length {L}"}))
     # zero-input legacy bytes (N04d) and marker edge cases
     for nout in (0, 1, 2):
         body = (1).to_bytes(4, "little") + b"\x00" + bytes([nout]) + b"".join((5).to_bytes(8, "little") + b"\x01\x51" for _ in range(nout)) + b"\x00" * 4
